@@ -288,21 +288,46 @@ def rule_pivotshape(P, deep=False) -> RuleResult:
                      f'output row; found {len(stores)} placements, {len(prods)} output rows')
                 continue
             outrow = stores[0][1].args[0]
-            want_fill = ('concat', (('L', (canon(field1),)), ('rep', ('L', (None,)), ('bin', '-', ('call', 'len', (canon(out_cols),), ()), 1))))
             n_cols = ('call', 'len', (canon(out_cols),), ())
+            # the row a group contributes: the list the blocks are stored into, with `lead` cells put in front of it when the row is made
+            made = prods[0][2]
+            while isinstance(made, T) and made.op == 'call' and made.args[0] in ('tuple', 'list') and len(made.args[1]) == 1 and not made.args[2]:
+                made = made.args[1][0]
+            if made is outrow or (not isinstance(outrow, SList) and made == outrow):
+                lead = 0
+            elif isinstance(made, T) and made.op == 'tuple' and len(made.args) == 2 and made.args[0] == field1 and \
+                    made.args[1] == T('star', (outrow,)):
+                lead = 1
+            elif isinstance(made, SList) and len(made.items) == 1 and made.items[0] == field1 and made.tail == [outrow]:
+                lead = 1
+            elif isinstance(made, T) and made.op == 'bin' and made.args[0] == '+' and canon(made.args[1]) in (('L', (canon(field1),)), ('tuple', canon(field1))) \
+                    and made.args[2] == outrow:
+                lead = 1
+            else:
+                fail('rows', f'{label}: each group gives one output row: the first pivot value followed by the blocks; found `{show(prods[0][2])[:100]}`')
+                continue
+            if not (isinstance(out_rows, SList) and out_rows.id == prods[0][1]):
+                fail('rows', f'{label}: the output rows are the rows made for the groups; `{show(prods[0][2])[:60]}` goes elsewhere')
+                continue
             slot0 = [e for d, e in inner if e[0] == 'store' and isinstance(e[1], T) and e[1].op == 'item' and e[1].args == (outrow, 0)]
-            alt_fill = canon(outrow) == ('rep', ('L', (None,)), n_cols) and len(slot0) == 1 and slot0[0][2] == field1
-            if canon(outrow) != want_fill and not alt_fill:
-                fail('fill', f'{label}: missing combinations are NULL: the output row starts as [first value] + [None] * (columns - 1); '
-                     f'found `{show(outrow)[:140]}`')
+            if lead == 0:
+                want_fill = ('concat', (('L', (canon(field1),)), ('rep', ('L', (None,)), ('bin', '-', n_cols, 1))))
+                alt_fill = canon(outrow) == ('rep', ('L', (None,)), n_cols) and len(slot0) == 1 and slot0[0][2] == field1
+                filled = canon(outrow) == want_fill or alt_fill
+            else:
+                filled = canon(outrow) == ('rep', ('L', (None,)), ('bin', '-', n_cols, 1)) and not slot0
+            if not filled:
+                fail('fill', f'{label}: missing combinations are NULL: the output row is the first value followed by NULL in each of the '
+                     f'(columns - 1) block cells before the blocks are placed; found `{show(outrow)[:140]}`'
+                     + (' behind the first value' if lead else ''))
                 continue
             kidx = ('call', f'{show(KEYS)}.index', (canon(T('item', (grow, col2))),), ())
-            want_idx = canon(T('bin', ('+', T('bin', ('*', Sym('K'), nother)), 1)))
-            want_idx = ('bin', '+', *sorted((('bin', '*', *sorted((kidx, nother), key=repr)), 1), key=repr))
+            scaled = kidx if nother == 1 else ('bin', '*', *sorted((kidx, nother), key=repr))       # x * 1 is x on terms
+            want_idx = ('bin', '+', *sorted((scaled, 1), key=repr)) if lead == 0 else scaled
             lo, hi = stores[0][1].args[1], stores[0][1].args[2]
             if canon(lo) != want_idx:
-                fail('placement', f'{label}: the block of key k starts at keys.index(k) * (number of remaining columns) + 1; found '
-                     f'`{show(lo)[:120]}`')
+                fail('placement', f'{label}: the block of key k starts at cell keys.index(k) * (number of remaining columns) + 1 of the output '
+                     f'row; found `{show(lo)[:120]}`' + (' in the list that follows the first value' if lead else ''))
                 continue
             want_hi = ('bin', '+', *sorted((want_idx, nother), key=repr))
             if canon(hi) != want_hi:
@@ -310,9 +335,6 @@ def rule_pivotshape(P, deep=False) -> RuleResult:
                 continue
             if canon(stores[0][2]) != canon(T('tuple', tuple(T('item', (grow, i)) for i in others))):
                 fail('placement', f'{label}: a block holds the values of the remaining columns of the row, in order; found `{show(stores[0][2])[:100]}`')
-                continue
-            if canon(prods[0][2]) != ('call', 'tuple', (canon(outrow),), ()) or not (isinstance(out_rows, SList) and out_rows.id == prods[0][1]):
-                fail('rows', f'{label}: each group gives one output row, the tuple of its output row; found `{show(prods[0][2])[:100]}`')
                 continue
         if len(res.findings) == nf:
             res.ok({'case': label, 'remaining_columns': nother, 'probes': ['source', 'keys sorted distinct', 'names', 'datatypes', 'sorted before '
